@@ -2106,6 +2106,33 @@ AREAS['image'] = dict(out='GenSrcImage', files=[IMG, BIT, FD, LBD], requires=['G
       params=['initial_position', 'offset', 'initial_offset'], vars={'initial_position': 'i64', 'offset': 'i32', 'initial_offset': 'i32'}),
     F(IMG, IMGM, 'bounded_poll', 'src_img_bounded_advances', frag=('cond', 'if', 3), params=['resulting_position', 'initial_position'],
       vars={'resulting_position': 'i64', 'initial_position': 'i64'}),
+    # controlled_poll
+    F(IMG, IMGM, 'controlled_poll', 'src_img_controlled_initial_offset', frag=('let', 'initial_offset'), self=['term_length_mask'],
+      params=['initial_position'], vars={'initial_position': 'i64'}),
+    F(IMG, IMGM, 'controlled_poll', 'src_img_controlled_continue', frag=('cond', 'while', 0),
+      params=['fragments_read', 'fragment_limit', 'resulting_offset', 'capacity'],
+      vars={'fragments_read': 'i32', 'resulting_offset': 'i32', 'capacity': 'i32'}),
+    F(IMG, IMGM, 'controlled_poll', 'src_img_controlled_advance', frag=('assign', 'resulting_offset', '+='),
+      params=['resulting_offset', 'aligned_length'], vars={'resulting_offset': 'i32', 'aligned_length': 'i32'}),
+    F(IMG, IMGM, 'controlled_poll', 'src_img_controlled_abort', frag=('assign', 'resulting_offset', '-='),
+      params=['resulting_offset', 'aligned_length'], vars={'resulting_offset': 'i32', 'aligned_length': 'i32'}),
+    F(IMG, IMGM, 'controlled_poll', 'src_img_controlled_commit', frag=('assign', 'initial_position', '+='),
+      params=['initial_position', 'resulting_offset', 'initial_offset'],
+      vars={'initial_position': 'i64', 'resulting_offset': 'i32', 'initial_offset': 'i32'}),
+    F(IMG, IMGM, 'controlled_poll', 'src_img_controlled_resulting_position', frag=('let', 'resulting_position'),
+      params=['initial_position', 'resulting_offset', 'initial_offset'],
+      vars={'initial_position': 'i64', 'resulting_offset': 'i32', 'initial_offset': 'i32'}),
+    # block_poll
+    F(IMG, IMGM, 'block_poll', 'src_img_block_term_offset', frag=('let', 'term_offset'), self=['term_length_mask'],
+      params=['position'], vars={'position': 'i64'}),
+    F(IMG, IMGM, 'block_poll', 'src_img_block_limit_offset', frag=('let', 'limit_offset'), params=['term_offset', 'block_length_limit'],
+      vars={'term_offset': 'i32'}, opaque=[('term_buffer . capacity ( )', 'capacity', 'i32')]),
+    F(IMG, IMGM, 'block_poll', 'src_img_block_length', frag=('let', 'length'), params=['resulting_offset', 'term_offset'],
+      vars={'resulting_offset': 'i32', 'term_offset': 'i32'}),
+    F(IMG, IMGM, 'block_poll', 'src_img_block_nonempty', frag=('cond', 'if', 1), params=['resulting_offset', 'term_offset'],
+      vars={'resulting_offset': 'i32', 'term_offset': 'i32'}),
+    F(IMG, IMGM, 'block_poll', 'src_img_block_new_position', frag=('callarg', 'set_ordered', 0, 0), params=['position', 'length'],
+      vars={'position': 'i64', 'length': 'i32'}, ty='i64'),
 ])
 
 AREAS['sub'] = dict(out='GenSrcSub', files=['src/subscription.rs'], fns=[
